@@ -187,6 +187,7 @@ class Exec:
             try:
                 env = make_inputs(self)
                 self.st.env = env
+                self.st.param_objs = dict(env)  # the objects passed in (in-place mutations visible, rebinding of the local name not)
                 self.st.old = V.clone({k: v for k, v in env.items()}, {})
                 self.assume_requires(contract, env)
                 if not self.feasible():
@@ -220,10 +221,12 @@ class Exec:
 
     def check_post(self, info, contract, env, result, exc):
         cenv = dict(self.st.old)  # parameters denote their entry values unless mutated objects (aliases kept)
-        for k in env:
+        pobj = getattr(self.st, "param_objs", {})
+        for k in pobj:
             if k in contract.params or k in self.st.old:
-                # mutable objects: post-state is visible through the same object; entry value through old()
-                cenv[k] = env[k] if isinstance(env[k], (Arr, Small, Obj, SymDict, ListMap, list, dict)) else self.st.old.get(k, env[k])
+                # mutable objects: post-state is visible through the same object; entry value through old().  The
+                # parameter denotes the object that was passed in, even if the body rebinds the local name.
+                cenv[k] = pobj[k] if isinstance(pobj[k], (Arr, Small, Obj, SymDict, ListMap, list, dict)) else self.st.old.get(k, pobj[k])
         cenv.update(self.st.ghostvars)
         if exc is not None:
             # exceptional exit: must be allowed by a raises clause
@@ -445,7 +448,7 @@ class Exec:
 
     # ------------------------------------------------------------------ loops
     def st_While(self, s, env, fr):
-        ordinal = next(fr.loop_ordinal)
+        ordinal = self._loop_ordinal(s, fr)
         spec = fr.contract.loops.get(ordinal) if fr.contract else None
         if spec is None:
             # bounded unrolling is not a proof: only concrete conditions are followed
@@ -488,8 +491,35 @@ class Exec:
         if not self.feasible():
             raise PathEnd()
 
+    def _loop_ordinal(self, s, fr):
+        """static ordinal of a loop statement: position among the For/While statements of its function in source order"""
+        ids = getattr(fr, "_loop_ids", None)
+        if ids is None:
+            ids = {}
+            body = getattr(fr.info, "body", None) or []
+            k = 0
+            stack = list(reversed(body))
+            # pre-order traversal in source order
+            def walk(stmts):
+                nonlocal k
+                for st in stmts:
+                    if isinstance(st, (ast.For, ast.While)):
+                        ids[id(st)] = k
+                        k += 1
+                    for fld in ("body", "orelse", "finalbody"):
+                        sub = getattr(st, fld, None)
+                        if isinstance(sub, list):
+                            walk(sub)
+                    for h in getattr(st, "handlers", []) or []:
+                        walk(h.body)
+            walk(body)
+            fr._loop_ids = ids
+        if id(s) in ids:
+            return ids[id(s)]
+        return next(fr.loop_ordinal) + 1000
+
     def st_For(self, s, env, fr):
-        ordinal = next(fr.loop_ordinal)
+        ordinal = self._loop_ordinal(s, fr)
         spec = fr.contract.loops.get(ordinal) if fr.contract else None
         it = self.eval_iter(s.iter, env, fr)
         if it[0] == "concrete":
@@ -1719,6 +1749,10 @@ def _merge_ghost(a, b):
         elif va is not None or vb is not None:
             out[k] = va if va is not None else vb
     out["owner"] = "fresh"
+    # memory layout of a ufunc result follows its array operands: C-contiguous iff every array operand is
+    cs = [g.get("corder") for g, v in ((ga, a), (gb, b)) if isinstance(v, Arr)]
+    if cs and all(c is True for c in cs):
+        out["corder"] = True
     return out
 
 
